@@ -7,6 +7,7 @@ import (
 	"encoding/json"
 	"errors"
 	"fmt"
+	"io"
 	"log/slog"
 	"math"
 	"strings"
@@ -62,7 +63,8 @@ type Node struct {
 	B       bool
 	T       time.Time
 	Members []Node
-	Valuer  int // number of LogValuer wrappers around the value (0..2)
+	Valuer  int  // number of LogValuer wrappers around the value (0..2)
+	Nested  bool // the LogValuer wrappers log records of their own while they are being resolved
 }
 
 // ---- value types used by the spec ----
@@ -93,6 +95,27 @@ type sampleStruct struct {
 type valuer struct{ v slog.Value }
 
 func (v valuer) LogValue() slog.Value { return v.v }
+
+// loggingValuer is a LogValuer that itself logs while it is being resolved (a value that reports a cache miss, a lazy
+// lookup that warns): a record is written through each of the three handlers, into a sink of their own, in the middle
+// of the formatting of the outer record. The outer line must not notice.
+type loggingValuer struct{ v slog.Value }
+
+var nestedLoggers = func() []*logger.Logger {
+	opts := logger.NewOptions(logger.LevelDebug, false, true)
+	return []*logger.Logger{
+		logger.New(logger.NewNanoHandler(io.Discard, opts)),
+		logger.New(logger.NewTextHandler(io.Discard, opts)).WithGroup("nested").With("in", "LogValue"),
+		logger.New(logger.NewJsonHandler(io.Discard, opts)).With("in", "LogValue"),
+	}
+}()
+
+func (v loggingValuer) LogValue() slog.Value {
+	for _, l := range nestedLoggers {
+		l.Warn("a record logged while a value of another record is being resolved", "k", "v with spaces", "n", 42)
+	}
+	return v.v
+}
 
 // GoValue returns the Go value a KindAny node carries (nil for the scalar kinds).
 func (n Node) GoValue() any {
@@ -162,7 +185,11 @@ func (n Node) baseValue() slog.Value {
 func (n Node) Value() slog.Value {
 	v := n.baseValue()
 	for i := 0; i < n.Valuer; i++ {
-		v = slog.AnyValue(valuer{v})
+		if n.Nested {
+			v = slog.AnyValue(loggingValuer{v})
+		} else {
+			v = slog.AnyValue(valuer{v})
+		}
 	}
 	return v
 }
@@ -213,7 +240,11 @@ func (n Node) Render() string {
 
 func (n Node) render(sb *strings.Builder) {
 	for i := 0; i < n.Valuer; i++ {
-		sb.WriteString("LV(")
+		if n.Nested {
+			sb.WriteString("LV-that-logs(")
+		} else {
+			sb.WriteString("LV(")
+		}
 	}
 	fmt.Fprintf(sb, "%q:", n.Key)
 	switch n.Kind {
@@ -405,6 +436,9 @@ func GenNode(o GenOpts, depth int) *rapid.Generator[Node] {
 			n.Valuer = 1
 		case v == 1 && isGroup:
 			n.Valuer = 2
+		}
+		if n.Valuer > 0 {
+			n.Nested = rapid.IntRange(0, 2).Draw(t, "valuerLogsWhileResolved") == 0
 		}
 		return n
 	})
